@@ -1,5 +1,553 @@
-"""C11(b): symbolic sizes (placeholder until the shape domain lands)."""
+"""C11(b): the real solver source over a SHAPE domain with symbolic sizes.
+
+An array is its shape - a tuple of z3 integer terms; pad, slice lengths
+(max(0, min(stop, n) - min(start, n)) as If-terms, no fork), boolean-mask
+indexing (shapes must be entailed equal, else the path raises IndexError as
+numpy does), broadcasting, integer indexing, meshgrid; px, py are free
+non-negative integers standing for int(halo / dx + eps).  The path explorer
+forks only where the solver says both outcomes are feasible (mode parity, the
+clamp, mask match, degenerate axes), so each of the handful of paths covers ALL
+sizes satisfying its constraints: nx, ny >= 1, any even mode counts >= 2, any
+pad >= 0 - no upper bound.
+
+Asserted on every non-raising path: the shapes handed to the forward and
+inverse transforms are the padded size (nye, nxe) (otherwise x = i dx is not
+the coordinate of column i - the misregistration case), the returned fields
+and coordinate arrays have the shape of the source (plus the level axis when
+more than one level is requested).  A sat path gives concrete sizes, replayed
+on the real solver."""
+import builtins
+import types
+
+import numpy as np
+import z3
+
+from ..symnp.loader import Loader
+from ..symnp import stubs
+
+PID = "C11"
 
 
-def run_shapes(run):
-    run.note("C11(b) symbolic-size shape domain: engine not built yet")
+class Explorer:
+    def __init__(self):
+        self.work = [[]]
+        self.paths = 0
+        self.queries = 0
+        self.prefix, self.pos, self.pc = [], 0, []
+
+    def start(self, prefix, assume):
+        self.prefix = list(prefix)
+        self.pos = 0
+        self.pc = list(assume)
+
+    def feasible(self, extra):
+        so = z3.Solver()
+        so.set("timeout", 20000)
+        so.add(self.pc)
+        so.add(extra)
+        self.queries += 1
+        r = so.check()
+        if r == z3.unknown:
+            raise RuntimeError("feasibility unknown")
+        return r == z3.sat
+
+    def decide(self, cond):
+        if self.pos < len(self.prefix):
+            v = self.prefix[self.pos]
+        else:
+            t = self.feasible(cond)
+            f = self.feasible(z3.Not(cond))
+            if t and f:
+                v = True
+                self.work.append(self.prefix[: self.pos] + [False])
+                self.prefix.append(True)
+            else:
+                v = t
+                self.prefix.append(v)
+        self.pos += 1
+        self.pc.append(cond if v else z3.Not(cond))
+        return v
+
+
+EX = [None]
+
+
+def zt(x):
+    return x.t if isinstance(x, ZI) else z3.IntVal(int(x))
+
+
+class ZB:
+    def __init__(self, t):
+        self.t = t
+
+    def __bool__(self):
+        return EX[0].decide(self.t)
+
+
+class ZI:
+    def __init__(self, t):
+        self.t = t
+
+    def __add__(self, o):
+        if isinstance(o, float):
+            return self
+        return ZI(self.t + zt(o))
+
+    __radd__ = __add__
+
+    def __sub__(self, o):
+        return ZI(self.t - zt(o))
+
+    def __rsub__(self, o):
+        return ZI(zt(o) - self.t)
+
+    def __mul__(self, o):
+        if isinstance(o, float):
+            return 1.0
+        return ZI(self.t * zt(o))
+
+    __rmul__ = __mul__
+
+    def __floordiv__(self, o):
+        return ZI(self.t / zt(o))
+
+    def __mod__(self, o):
+        return ZI(self.t % zt(o))
+
+    def __neg__(self):
+        return ZI(-self.t)
+
+    def __truediv__(self, o):
+        return 1.0
+
+    def __rtruediv__(self, o):
+        return 1.0
+
+    def __gt__(self, o):
+        return ZB(self.t > zt(o))
+
+    def __ge__(self, o):
+        return ZB(self.t >= zt(o))
+
+    def __lt__(self, o):
+        return ZB(self.t < zt(o))
+
+    def __le__(self, o):
+        return ZB(self.t <= zt(o))
+
+    def __eq__(self, o):
+        return ZB(self.t == zt(o))
+
+    def __ne__(self, o):
+        return ZB(self.t != zt(o))
+
+    __hash__ = None
+
+
+def sym(x):
+    return isinstance(x, ZI)
+
+
+def zmax(a, b):
+    if sym(a) or sym(b):
+        return ZI(z3.If(zt(a) >= zt(b), zt(a), zt(b)))
+    return max(a, b)
+
+
+def zmin(a, b):
+    if sym(a) or sym(b):
+        return ZI(z3.If(zt(a) <= zt(b), zt(a), zt(b)))
+    return min(a, b)
+
+
+class Sh:
+    """an array, abstracted to its shape"""
+
+    def __init__(self, shape, nfalse=0):
+        self.shape = tuple(shape)
+        self.nfalse = nfalse
+
+    @property
+    def ndim(self):
+        return len(self.shape)
+
+    def __len__(self):
+        raise TypeError("len() of a shape-abstracted array")
+
+    @property
+    def real(self):
+        return Sh(self.shape)
+
+    def _bc(self, o):
+        if not isinstance(o, Sh):
+            return Sh(self.shape)
+        a, b = list(self.shape), list(o.shape)
+        while len(a) < len(b):
+            a.insert(0, 1)
+        while len(b) < len(a):
+            b.insert(0, 1)
+        out = []
+        for x, y in zip(a, b):
+            if x is y or bool(x == y):
+                out.append(x)
+            elif bool(x == 1):
+                out.append(y)
+            elif bool(y == 1):
+                out.append(x)
+            else:
+                raise ValueError("operands could not be broadcast together")
+        return Sh(out)
+
+    __add__ = __radd__ = __sub__ = __rsub__ = __mul__ = __rmul__ = __truediv__ = __rtruediv__ = _bc
+
+    def __neg__(self):
+        return Sh(self.shape)
+
+    def __pow__(self, n):
+        return Sh(self.shape)
+
+    def _axis(self, n, k):
+        if isinstance(k, slice):
+            a = 0 if k.start is None else k.start
+            b = n if k.stop is None else k.stop
+            for v in (a, b):
+                if bool(v < 0):
+                    raise NotImplementedError("negative slice bound")
+            a = zmin(a, n)
+            b = zmin(b, n)
+            return [zmax(b - a, 0)]
+        if k is None:
+            return None
+        if bool(k >= n):
+            raise IndexError("index out of bounds")
+        return []
+
+    def _index(self, key):
+        if not isinstance(key, tuple):
+            key = (key,)
+        out = []
+        dim = 0
+        for k in key:
+            if k is Ellipsis:
+                rest = len([q for q in key if q is not Ellipsis and q is not None and not isinstance(q, Sh)]) + sum(q.ndim for q in key if isinstance(q, Sh))
+                take = len(self.shape) - rest
+                out += list(self.shape[dim: dim + take])
+                dim += take
+                continue
+            if k is None:
+                out.append(1)
+                continue
+            if isinstance(k, Sh):
+                for x, y in zip(self.shape[dim: dim + k.ndim], k.shape):
+                    if not (x is y or bool(x == y)):
+                        raise IndexError("boolean index did not match indexed array")
+                cnt = 1
+                for d in k.shape:
+                    cnt = cnt * d
+                out.append(cnt - k.nfalse)
+                dim += k.ndim
+                continue
+            if isinstance(k, list):
+                out.append(len(k))
+                dim += 1
+                continue
+            if dim >= len(self.shape):
+                raise IndexError("too many indices for array")
+            out += self._axis(self.shape[dim], k)
+            dim += 1
+        out += list(self.shape[dim:])
+        return out
+
+    def __getitem__(self, key):
+        sh = self._index(key)
+        if not sh and not (isinstance(key, tuple) and any(isinstance(k, (slice, Sh)) for k in key)):
+            return 1.0
+        return Sh(sh)
+
+    def __setitem__(self, key, val):
+        sh = self._index(key)
+        if isinstance(val, Sh):
+            t = Sh(sh)._bc(val)
+            for x, y in zip(t.shape, sh):
+                if not (x is y or bool(x == y)):
+                    raise ValueError("could not broadcast input array")
+        if getattr(self, "isbool", False) and isinstance(key, tuple) and not any(isinstance(k, (slice, Sh)) for k in key):
+            self.nfalse = 1
+
+    def tolist(self):
+        return [0] * 1
+
+
+FFT_IN = []
+
+
+class NPS:
+    pi = 3.141592653589793
+    complex128 = "c16"
+    complex64 = "c8"
+    newaxis = None
+
+    def ndim(self, x):
+        return x.ndim if isinstance(x, Sh) else (1 if isinstance(x, (list, tuple)) else 0)
+
+    def array(self, x):
+        if isinstance(x, list) and all(isinstance(e, (int, np.integer)) for e in x):
+            return list(x)  # an index array (the levels): kept concrete
+        return Sh((len(x),)) if isinstance(x, list) else x
+
+    def atleast_1d(self, x):
+        return Sh((len(x),)) if isinstance(x, list) else Sh((1,))
+
+    def shape(self, x):
+        return x.shape
+
+    def diff(self, x):
+        return Sh((zmax(x.shape[0] - 1, 0),))
+
+    def pad(self, a, pw, mode=None, constant_values=0.0):
+        out = []
+        for d, (l, r) in zip(a.shape, pw):
+            if bool(l < 0) or bool(r < 0):
+                raise ValueError("index can't contain negative values")
+            out.append(d + l + r)
+        return Sh(out)
+
+    def ones(self, shape, dtype=None):
+        for d in shape:
+            if bool(d < 0):
+                raise ValueError("negative dimensions are not allowed")
+        r = Sh(shape)
+        r.isbool = dtype is bool
+        return r
+
+    zeros = ones
+
+    def meshgrid(self, *xs, indexing="xy"):
+        if indexing == "xy":
+            shp = (xs[1].shape[0], xs[0].shape[0]) + tuple(x.shape[0] for x in xs[2:])
+        else:
+            shp = tuple(x.shape[0] for x in xs)
+        return [Sh(shp) for _ in xs]
+
+    def sqrt(self, x):
+        return Sh(x.shape) if isinstance(x, Sh) else x
+
+    exp = sqrt
+
+    def copy(self, x):
+        return Sh(x.shape)
+
+    def linspace(self, a, b, n, endpoint=True):
+        return Sh((n,))
+
+    def squeeze(self, x, axis=None):
+        if axis is not None:
+            axes = (axis,) if isinstance(axis, int) else tuple(axis)
+            return Sh([d for i, d in enumerate(x.shape) if i not in axes])
+        return Sh([d for d in x.shape if bool(d != 1)])
+
+
+def s_fftfreq(n, d=1.0):
+    if bool(n <= 0):
+        raise ValueError("n should be > 0")
+    return Sh((n,))
+
+
+def s_fft(x, norm=None):
+    FFT_IN.append(x.shape)
+    return Sh(x.shape)
+
+
+class PadTok:
+    def __init__(self, v):
+        self.v = v
+
+    def __add__(self, o):
+        return self
+
+    __radd__ = __add__
+
+
+class Halo:
+    """halo width: int(halo / dx + eps) and int(halo / dy + eps) are free non-negative integers"""
+
+    def __init__(self, px, py):
+        self.px, self.py = px, py
+        self.calls = 0
+
+    def __truediv__(self, o):
+        self.calls += 1
+        return PadTok(self.px if self.calls == 1 else self.py)
+
+    def __radd__(self, o):
+        return 0.0
+
+    __add__ = __radd__
+    __mul__ = __rmul__ = __radd__
+
+
+def s_int(v):
+    return v.v if isinstance(v, PadTok) else builtins.int(v)
+
+
+def s_len(v):
+    return v.shape[0] if isinstance(v, Sh) else builtins.len(v)
+
+
+def load(patch=None):
+    ns = types.SimpleNamespace
+    npfft = ns(fftshift=lambda x, axes=None: Sh(x.shape), ifftshift=lambda x, axes=None: Sh(x.shape), fftfreq=s_fftfreq)
+    fm = ns(fft2=s_fft, ifft2=s_fft, get_fft_manager=lambda **k: None)
+    env = {
+        "modules": {"numpy": NPS(), "numpy.fft": npfft, "bldfm.fft_manager": fm, "numba": stubs.numba_stub()},
+        "builtins": {"int": s_int, "len": s_len, "max": lambda *a: a[0] if len(a) == 1 else builtins.max(*a)},
+        "patch": patch or {},
+    }
+    L = Loader(env)
+    return L, L.load("solver")
+
+
+def explore(mod, footprint, levels, cap=200):
+    EX[0] = Explorer()
+    E = EX[0]
+    nx, ny, hx, hy, px, py = [z3.Int(n) for n in "nx ny hx hy px py".split()]
+    assume = [nx >= 1, ny >= 1, hx >= 1, hy >= 1, px >= 0, py >= 0]
+    viol = []
+    outcomes = {}
+    while E.work:
+        if E.paths >= cap:
+            return dict(cap_hit=True, paths=E.paths, queries=E.queries, outcomes=outcomes, violations=viol)
+        prefix = E.work.pop()
+        E.start(prefix, assume)
+        E.paths += 1
+        FFT_IN.clear()
+        nz = 3
+        try:
+            g, c, f = mod.steady_state_transport_solver(
+                Sh((ZI(ny), ZI(nx))), Sh((nz,)), tuple(Sh((nz,)) for _ in range(5)), (100.0, 80.0), levels,
+                modes=(ZI(2 * hx), ZI(2 * hy)), meas_pt=(0.0, 0.0), footprint=footprint, halo=Halo(ZI(px), ZI(py)), precision="double")
+        except (ValueError, IndexError) as e:
+            outcomes[type(e).__name__] = outcomes.get(type(e).__name__, 0) + 1
+            continue
+        outcomes["return"] = outcomes.get("return", 0) + 1
+        nl = len(levels) if isinstance(levels, list) else 1
+        exp = ([nl] if nl > 1 else []) + [ZI(ny), ZI(nx)]
+        bad = []
+        for arr in (c, f) + tuple(g):
+            shp = getattr(arr, "shape", None)
+            if shp is None or len(shp) != len(exp):
+                bad.append(z3.BoolVal(True))
+            else:
+                bad += [zt(a) != zt(b) for a, b in zip(shp, exp)]
+        nxe, nye = nx + 2 * px, ny + 2 * py
+        for shp in FFT_IN:
+            bad += [zt(shp[-1]) != nxe, zt(shp[-2]) != nye]
+        so = z3.Solver()
+        so.set("timeout", 60000)
+        so.add(E.pc)
+        so.add(z3.Or(bad))
+        E.queries += 1
+        r = so.check()
+        if r == z3.sat:
+            m = so.model()
+            viol.append({str(v): m.eval(v, True).as_long() for v in (nx, ny, hx, hy, px, py)})
+        elif r == z3.unknown:
+            outcomes["unknown"] = outcomes.get("unknown", 0) + 1
+    return dict(cap_hit=False, paths=E.paths, queries=E.queries, outcomes=outcomes, violations=viol)
+
+
+def replay_sizes(v, footprint, levels):
+    """the model's sizes on the real solver: shape and registration (reciprocity) must hold or the call must raise"""
+    from ..symnp import kindl
+
+    real = kindl.real_pkg()
+    S = real.solver.steady_state_transport_solver
+    nx, ny = v["nx"], v["ny"]
+    dx, dy = 10.0, 12.0
+    halo = max(v["px"] * dx, v["py"] * dy) if v["px"] or v["py"] else 0.0
+    # choose a halo that gives exactly (px, py) when possible; otherwise the nearest
+    halo = v["px"] * dx + 0.5 if v["px"] * dx + 0.5 < (v["px"] + 1) * dx else v["px"] * dx
+    z, prof = kindl.profiles("P2", 2)
+    rng = np.random.default_rng(0)
+    q = rng.standard_normal((ny, nx))
+    modes = (2 * v["hx"], 2 * v["hy"])
+    try:
+        g, c, f = S(q, z, prof, (nx * dx, ny * dy), levels, modes=modes, meas_pt=(dx * (nx > 1), 0.0), footprint=footprint, halo=halo, precision="double")
+    except Exception as e:
+        return dict(raised=type(e).__name__, confirmed=False)
+    nl = len(levels) if isinstance(levels, list) else 1
+    want = ((nl,) if nl > 1 else ()) + (ny, nx)
+    bad = np.shape(f) != want or np.shape(c) != want
+    out = dict(shape=list(np.shape(f)), expected=list(want))
+    if not bad:
+        # registration through reciprocity
+        kw = dict(modes=modes, halo=halo, precision="double")
+        g, cf, ff = S(q, z, prof, (nx * dx, ny * dy), levels, meas_pt=(dx * (nx > 1), 0.0), footprint=True, **kw)
+        try:
+            g, cd, fd = S(q, z, prof, (nx * dx, ny * dy), levels, **kw)
+            ff, fd = np.reshape(ff, (nl, ny, nx)), np.reshape(fd, (nl, ny, nx))
+            err = max(abs(float(np.sum(q * ff[k])) - float(fd[k][0, 1 if nx > 1 else 0])) / max(np.abs(fd[k]).max(), 1e-300) for k in range(nl))
+            out["reciprocity_error"] = err
+            bad = err > 1e-7
+        except Exception as e:
+            out["dispersion_raised"] = type(e).__name__
+    out["confirmed"] = bool(bad)
+    return out
+
+
+CANARIES = [
+    ("symmetric_truncation", {"solver": [("dhx, dhy = nxe - nlx - dlx, nye - nly - dly", "dhx, dhy = dlx, dly")]}),
+    ("squeeze_all_axes", {"solver": [("        grid = (X[0], Y[0], Z[0])\n        result = (grid, conc[0], flx[0])", "        grid = (np.squeeze(X), np.squeeze(Y), np.squeeze(Z))\n        result = (grid, np.squeeze(conc), np.squeeze(flx))")]}),
+    ("crop_uses_px_for_y", {"solver": [("conc = p[:, py : nye - py, px : nxe - px]", "conc = p[:, px : nye - px, px : nxe - px]")]}),
+]
+
+
+def run_shapes(run, patch=None, account=True):
+    L, mod = load(patch)
+    if account:
+        run.encode("bldfm.solver", "steady_state_transport_solver (shape domain, symbolic sizes)", L.function_source("solver", "steady_state_transport_solver"))
+    found = []
+    for footprint in (True, False):
+        for levels in ([0, 2], 2):
+            r = explore(mod, footprint, levels)
+            scn = dict(part="b", footprint=footprint, levels=levels, sizes="nx, ny >= 1; modes = 2*hx, 2*hy >= 2; pads >= 0; unbounded")
+            if account:
+                run.paths["explored"] += r["paths"]
+                run.paths["cap_hits"] += int(r["cap_hit"])
+                o = run.ob("symbolic_sizes_transform_on_padded_grid_and_source_shape_returned")
+                nq = r["outcomes"].get("return", 0)
+                o["queries"] += nq
+                o["sat"] += len(r["violations"])
+                o["unsat"] += nq - len(r["violations"]) - r["outcomes"].get("unknown", 0)
+                o["unknown"] += r["outcomes"].get("unknown", 0)
+                run.queries["sat"] += len(r["violations"])
+                run.queries["unsat"] += nq - len(r["violations"]) - r["outcomes"].get("unknown", 0)
+                run.queries["unknown"] += r["outcomes"].get("unknown", 0)
+                run.extra.setdefault("shape_domain", []).append(dict(scn, paths=r["paths"], feasibility_queries=r["queries"], outcomes=r["outcomes"]))
+                run.nontrivial.add(("symbolic_sizes", repr(scn)))
+                if r["cap_hit"] or r["outcomes"].get("unknown"):
+                    run.inconclusive.append(dict(obligation="symbolic_sizes", scenario=scn, why="path cap or unknown"))
+            for v in r["violations"][:2]:
+                found.append((scn, v))
+    if account:
+        for scn, v in found[:3]:
+            res = replay_sizes(v, scn["footprint"], scn["levels"])
+            run.report(dict(property=PID, obligation="symbolic_sizes_transform_on_padded_grid_and_source_shape_returned", scenario=scn, sizes=v, replay=res), res["confirmed"])
+    return found
+
+
+def canaries(run):
+    for name, patch in CANARIES:
+        try:
+            f = run_shapes(run, patch=patch, account=False)
+        except KeyError:
+            run.note("canary %s (shape domain) not applicable" % name)
+            continue
+        except Exception:
+            f = ["raised"]
+        run.canaries["total"] += 1
+        if f:
+            run.canaries["caught"] += 1
+        else:
+            run.canaries["missed"].append(name + " (shape domain)")
+            run.errors.append("canary %s was not noticed by the shape-domain harness" % name)
